@@ -15,6 +15,7 @@ func (c *Catalog) createSchema(stmt *ast.CreateSchemaStmt) error {
 		if !stmt.IfNotExists {
 			return sqlerr.SchemaExists(*stmt.Name)
 		}
+		return nil
 	}
 	c.Schemas = append(c.Schemas, &Schema{Name: *stmt.Name})
 	return nil
